@@ -431,6 +431,13 @@ func Supervise(o Options) Summary {
 				stderrB, _ := os.ReadFile(ef)
 				cr := parseCrash(string(stderrB), exit, timedOut)
 				c := b.cases[inflight]
+				if cr.Kind == "go-panic" && cr.TopFrame == "" && !strings.Contains(string(stderrB), "github.com/smarthome-go/homescript/v3/") {
+					// a Go panic without any frame of the repository on any stack: the harness itself
+					// (reference model, generator) failed — never a statement about the code under test
+					mu.Lock()
+					harnessErr = "worker panicked outside the repository's code while running case " + c.ID + ": " + tailStr(string(stderrB), 1500)
+					mu.Unlock()
+				}
 				r := p.OnCrash(c, cr)
 				if cr.Kind == "watchdog" && cr.Deadlock && r.Verdict == Inconclusive {
 					// not a matter of waiting longer: every goroutine of the program is blocked for good
